@@ -434,7 +434,7 @@ class RoutePart:
                 raise RuntimeError("a process of the switch loops without yielding")
             old_h = signal.signal(signal.SIGALRM, _hang)
             t_start = time.time()
-            old_t = signal.setitimer(signal.ITIMER_REAL, 3.0)
+            old_t = signal.setitimer(signal.ITIMER_REAL, 2.0, 0.5)     # repeating: every spinning process gets its own alarm
             try:
                 log = h.run(max_steps=30000)
             except RuntimeError as e:
@@ -444,7 +444,7 @@ class RoutePart:
             finally:
                 left = max(old_t[0] - (time.time() - t_start), 0.05) if old_t[0] else 0
                 signal.signal(signal.SIGALRM, old_h)
-                signal.setitimer(signal.ITIMER_REAL, left)
+                signal.setitimer(signal.ITIMER_REAL, left, 1.0 if left else 0)
         final = []
         for j, st in enumerate(stages):
             o = objs[j]
